@@ -49,7 +49,10 @@ GROW = ['setitem_ok', 'setitem_dup', 'setitem_len', 'setitem_series', 'setitem_s
         'extend_empty_frame']
 DERIVE = ['to_frame', 'to_frame_go', 'to_frame_he', 'iloc', 'getitem', 'relabel', 'rename', 'sort_columns', 'sort_index', 'reindex',
           'add1', 'T', 'set_index', 'fillna', 'astype', 'drop', 'assign', 'FrameGO(f)', 'Frame(f)', 'columns_copy', 'group_first',
-          'copy', 'deepcopy', 'pickle']
+          'copy', 'deepcopy', 'pickle',
+          # selections / drops that keep the columns as they are (the result must still own its columns), and any operation of the
+          # shared catalogue (sfv.ops) applied to the growing frame
+          'drop_rows', 'iloc_rows', 'loc_rows', 'head', 'tail', 'cat', 'cat', 'cat']
 READ = ['values', 'dtypes', 'columns_values', 'loc_last', 'display', 'positions']
 IX_GROW = ['append_ok', 'append_dup', 'extend_ok', 'extend_partdup', 'extend_selfdup']
 IX_DERIVE = ['Index(ix)', 'copy', 'IndexGO(ix)', 'iloc', 'relabel', 'values', 'union', 'to_series', 'label_widths']
@@ -76,7 +79,7 @@ def cases(ctx):
                 steps.append([op, rng.randint(0, 10 ** 6)])
             yield {'k': 'frame', 'spec': spec, 'steps': steps}
         elif kind == 'index':
-            start = rng.choice(['auto3', 'strs', 'empty', 'ints'])
+            start = rng.choice(['auto3', 'strs', 'empty', 'ints', 'dates'])
             for _ in range(nsteps):
                 r = rng.random()
                 op = rng.choice(IX_GROW) if r < 0.6 else rng.choice(IX_DERIVE)
@@ -137,6 +140,8 @@ def mutable_ids(o):
             out.add(id(ix._labels_mutable))
             if ix._map is not None:
                 out.add(id(ix._map))
+        elif isinstance(ix, sf.Index) and ix._map is not None and 'Frozen' not in type(ix._map).__name__:
+            out.add(id(ix._map))       # a static index holding a mutable label map (it can only have come from a grow-only index)
         return out
 
     def tb_ids(tb):
@@ -147,6 +152,8 @@ def mutable_ids(o):
         return index_ids(o._columns) | ({id(o._columns)} if not o._columns.STATIC else set()), tb_ids(o._blocks)
     if isinstance(o, IndexBase):
         return index_ids(o), set()
+    if isinstance(o, sf.Series):
+        return index_ids(o._index), set()
     return set(), set()
 
 
@@ -419,6 +426,27 @@ def derive_frame(src, op, r):
             for k, g in src.iter_group_items(list(src.columns)[0]):
                 return g
         return None
+    n = src.shape[0]
+    if op == 'drop_rows':
+        return src.drop.iloc[[r % n]] if n else None
+    if op == 'iloc_rows':
+        return src.iloc[: max(1, n - 1)] if n else None
+    if op == 'loc_rows':
+        return src.loc[list(src.index)[: max(1, n - 1)]] if n else None
+    if op == 'head':
+        return src.head(1)
+    if op == 'tail':
+        return src.tail(1)
+    if op == 'cat':
+        import random
+        from sfv import ops
+        if not m:
+            return None
+        rr = random.Random(r)
+        name = rr.choice(ops.catalogue_names())
+        args = ops.rand_args(name, rr, {'rows': n, 'cols': [{'dt': 'x'}] * m})
+        res = ops.CATALOGUE[name][1](src, args)
+        return res if isinstance(res, (sf.Frame, sf.Series)) else None
     if op == 'copy':
         return copy.copy(src)
     if op == 'deepcopy':
@@ -435,9 +463,14 @@ def run_index_history(ctx, c):
     if c['k'] == 'index':
         start = c['start']
         ix = {'auto3': lambda: sf.IndexGO(range(3), loc_is_iloc=True) if False else sf.IndexGO((0, 1, 2)),
-              'strs': lambda: sf.IndexGO(('a', 'b', 'c')), 'empty': lambda: sf.IndexGO(()), 'ints': lambda: sf.IndexGO((5, 3, 9))}[start]()
+              'strs': lambda: sf.IndexGO(('a', 'b', 'c')), 'empty': lambda: sf.IndexGO(()), 'ints': lambda: sf.IndexGO((5, 3, 9)),
+              'dates': lambda: None}[start]()
         pool = ['a', 'b', 'c', 'd', 'e', 3, 4, 5, 9, 0, 1, 2, 'zz', 2.5]
         cls_static, cls_go = sf.Index, sf.IndexGO
+        if start == 'dates':
+            ix = sf.IndexDateGO(('2020-01-01', '2020-01-03'))
+            pool = [np.datetime64('2020-01-0%d' % d) for d in range(1, 10)]
+            cls_static, cls_go = sf.IndexDate, sf.IndexDateGO
     else:
         labs = [untok(t) for t in c['labels']]
         ix = sf.IndexHierarchyGO.from_labels(labs) if labs else sf.IndexHierarchyGO.from_labels((), depth_reference=2) if False else None
@@ -510,6 +543,19 @@ def run_index_history(ctx, c):
             u = usable(h.live[ti])
             if u:
                 h.fail('oracle', f'step {label}: index inconsistent after growth: {u}')
+            grown_now = list(h.live[ti])
+            for oi, o in enumerate(h.live):
+                if oi == ti or not isinstance(o, IndexBase) or c['k'] != 'index':
+                    continue
+                own = list(o)
+                for x in grown_now:
+                    if not any(x == y for y in own):
+                        try:
+                            found = x in o
+                        except Exception:
+                            found = False
+                        if found:
+                            h.fail('oracle', f'step {label}: label {x!r} appended to container {ti} is found in live container {oi} ({type(o).__name__}) which does not hold it')
         else:
             src = h.live[r % len(h.live)]
             try:
